@@ -106,6 +106,7 @@ type Lemma struct {
 	TwoState  bool   // mentions old(): proved for an arbitrary pair of heaps
 	Axiom     bool   // trusted, not proved
 	Auto      bool   // assumed as a quantified axiom in every obligation of the package (with patterns)
+	Definition bool  // defining equation of an uninterpreted spec function introduced by `define` (conservative, not an assumption)
 	Pats      [][]SExpr
 	Uses      []string
 	Serves    []string
@@ -123,11 +124,13 @@ type PkgSpec struct {
 	LemmaList []*Lemma
 	Files     []string
 	GlobalInvs []*Clause
+	Immutable []string // struct types whose fields are never written after construction
+	Defines   []string // names of the defining axioms introduced by `define` (assumed in every obligation of the package)
 }
 
 var clauseKeywords = map[string]bool{
 	"vfun": true, "requires": true, "ensures": true, "modifies": true, "loop": true, "foreach": true, "serves": true,
-	"trusted": true, "func": true, "fun": true, "pred": true, "lemma": true, "axiom": true, "mode": true,
+	"trusted": true, "func": true, "fun": true, "define": true, "immutable": true, "pred": true, "lemma": true, "axiom": true, "mode": true,
 	"ghost": true, "inline": true, "pure": true, "bounded": true, "opaque": true,
 	"uses": true, "callback": true, "globalinv": true, "pattern": true, "hint": true, "footprint": true, "covers": true, "after": true,
 }
@@ -202,7 +205,7 @@ func groupLines(lines []rawLine) []rawLine {
 
 var (
 	reFunc   = regexp.MustCompile(`^func\s+([A-Za-z_][\w.]*)\s*(.*)$`)
-	reFun    = regexp.MustCompile(`^(fun|pred|vfun)\s+([A-Za-z_]\w*)\s*\(([^)]*)\)\s*([\w.*\[\]]*)\s*(?::=\s*(.*))?$`)
+	reFun    = regexp.MustCompile(`^(fun|pred|vfun|define)\s+([A-Za-z_]\w*)\s*\(([^)]*)\)\s*([\w.*\[\]]*)\s*(?::=\s*(.*))?$`)
 	reLemma  = regexp.MustCompile(`^(lemma|axiom)\s+([A-Za-z_]\w*)\s*\(([^)]*)\)\s*(.*)$`)
 	reLoop   = regexp.MustCompile(`^(loop|foreach)\s+#?(\d+)\s+(invariant|decreases|unroll)\s*(.*)$`)
 	reFootprint = regexp.MustCompile(`^footprint\s+([A-Za-z_]\w*)\s*\(\s*(\w+)\s*\)\s*:=\s*(.*)$`)
@@ -327,7 +330,7 @@ func (ps *PkgSpec) parseLines(raw []rawLine) error {
 			cur = &Contract{Pkg: ps.Pkg, Name: m[1], Loops: map[int]*LoopSpec{}, Foreach: map[int]*LoopSpec{}, Callbacks: map[string]*CallbackSpec{}, File: l.file, Line: l.line}
 			curLemma = nil
 			ps.Contracts[m[1]] = cur
-		case "fun", "pred", "vfun":
+		case "fun", "pred", "vfun", "define":
 			m := reFun.FindStringSubmatch(t)
 			if m == nil {
 				return errf("bad %s line %q", kw, t)
@@ -352,6 +355,28 @@ func (ps *PkgSpec) parseLines(raw []rawLine) error {
 			}
 			ps.Funs[sf.Name] = sf
 			cur, curLemma = nil, nil
+			if kw == "define" {
+				// a named symbol with its defining equation as a pattern-triggered axiom: F(args) == body
+				if sf.Body == nil {
+					return errf("define needs a body")
+				}
+				var args []SExpr
+				for _, b := range bs {
+					args = append(args, &SIdent{b.Name})
+				}
+				app := &SCall{Fun: &SIdent{sf.Name}, Args: args}
+				op := "=="
+				if sf.Ret == "bool" {
+					op = "<==>"
+				}
+				lm := &Lemma{Pkg: ps.Pkg, Name: sf.Name + "$def", Params: bs, Axiom: true, Definition: true, File: l.file, Line: l.line,
+					Ensures: []*Clause{{E: &SBin{op, app, sf.Body}, Src: sf.Name + " definition", File: l.file, Line: l.line}},
+					Pats:    [][]SExpr{{app}}}
+				sf.Body = nil
+				ps.Lemmas[lm.Name] = lm
+				ps.LemmaList = append(ps.LemmaList, lm)
+				ps.Defines = append(ps.Defines, lm.Name)
+			}
 		case "lemma", "axiom":
 			m := reLemma.FindStringSubmatch(t)
 			if m == nil {
@@ -632,12 +657,17 @@ func (ps *PkgSpec) parseLines(raw []rawLine) error {
 			default:
 				return errf("bad callback clause kind %q", f[1])
 			}
+		case "immutable":
+			ps.Immutable = append(ps.Immutable, strings.Fields(rest)...)
+			cur, curLemma = nil, nil
 		case "opaque":
 			// opaque F : mark spec function opaque
-			if sf := ps.Funs[rest]; sf != nil {
-				sf.Opaque = true
-			} else {
-				return errf("opaque: unknown spec function %q", rest)
+			for _, n := range strings.Fields(rest) {
+				if sf := ps.Funs[n]; sf != nil {
+					sf.Opaque = true
+				} else {
+					return errf("opaque: unknown spec function %q", n)
+				}
 			}
 		default:
 			return errf("unknown contract keyword %q", kw)
